@@ -379,6 +379,7 @@ Definition hist_received (ow : option wproxy) : bool :=
 Inductive wstat : Type := WPending | WDone | WReported.
 
 Record reader : Type := mkRd {
+  rd_alive : bool;             (* false once the reader has been deleted (kept for its ghost presented list) *)
   rd_rel : bool;               (* reader RELIABLE *)
   rd_tl : bool;                (* reader TRANSIENT_LOCAL *)
   rd_wp : option wproxy;       (* matched_writers (at most the one writer) *)
@@ -433,8 +434,8 @@ Definition drain (l : list wstat) : list wstat :=
 (* --- delivery of one submessage to the reader's participant *)
 Definition rd_present (r : reader) (w : wproxy) (oc : option change) : reader :=
   match oc with
-  | Some c => mkRd (rd_rel r) (rd_tl r) (Some w) (rd_cache r ++ [c]) (rd_pres r ++ [c]) (rd_hwaits r)
-  | None => mkRd (rd_rel r) (rd_tl r) (Some w) (rd_cache r) (rd_pres r) (rd_hwaits r)
+  | Some c => mkRd (rd_alive r) (rd_rel r) (rd_tl r) (Some w) (rd_cache r ++ [c]) (rd_pres r ++ [c]) (rd_hwaits r)
+  | None => mkRd (rd_alive r) (rd_rel r) (rd_tl r) (Some w) (rd_cache r) (rd_pres r) (rd_hwaits r)
   end.
 
 Definition deliver_sub_R (cf : cfg) (r : reader) (m : submsg) : reader * list dgram :=
@@ -450,7 +451,7 @@ Definition deliver_sub_R (cf : cfg) (r : reader) (m : submsg) : reader * list dg
       let r1 := rd_present r w1 None in
       (* after every HEARTBEAT: waiters of wait_for_historical_data *)
       ((if hist_received (rd_wp r1)
-        then mkRd (rd_rel r1) (rd_tl r1) (rd_wp r1) (rd_cache r1) (rd_pres r1) (drain (rd_hwaits r1))
+        then mkRd (rd_alive r1) (rd_rel r1) (rd_tl r1) (rd_wp r1) (rd_cache r1) (rd_pres r1) (drain (rd_hwaits r1))
         else r1), out)
     | SAck _ _ _ | SNack _ _ _ _ => (r, [])
     end
@@ -484,7 +485,10 @@ Definition deliver_dgram (cf : cfg) (s : state) (d : dgram) : state :=
     if s_rdead s then s
     else match s_rd s with
          | None => s
-         | Some r => let '(r1, out) := deliver_subs_R cf r (dg_subs d) [] in send (set_rd s (Some r1)) out
+         | Some r =>
+           if rd_alive r
+           then let '(r1, out) := deliver_subs_R cf r (dg_subs d) [] in send (set_rd s (Some r1)) out
+           else s
          end
   else fold_left (deliver_sub_W cf) (dg_subs d) s.
 
@@ -502,6 +506,13 @@ Fixpoint inst_update (l : list (Z * list Z)) (key : Z) (f : list Z -> list Z) : 
   match l with
   | [] => [(key, f [])]
   | e :: t => if fst e =? key then (key, f (snd e)) :: t else e :: inst_update t key f
+  end.
+
+(* the deleted reader keeps its (ghost) presented list but takes part in nothing any more *)
+Definition kill_reader (o : option reader) : option reader :=
+  match o with
+  | Some r => Some (mkRd false (rd_rel r) (rd_tl r) (rd_wp r) [] (rd_pres r) (rd_hwaits r))
+  | None => None
   end.
 
 (* code 0 = Ok, 10 = Timeout *)
@@ -597,7 +608,10 @@ Definition act (cf : cfg) (s : state) (a : action) : state * out :=
   | APump => let '(s1, n) := pump pump_fuel cf s 0 in (s1, OCount n)
   | ATake =>
     match s_rd s with
-    | Some r => (set_rd s (Some (mkRd (rd_rel r) (rd_tl r) (rd_wp r) [] (rd_pres r) (rd_hwaits r))), OTake (rd_cache r))
+    | Some r =>
+      if rd_alive r
+      then (set_rd s (Some (mkRd (rd_alive r) (rd_rel r) (rd_tl r) (rd_wp r) [] (rd_pres r) (rd_hwaits r))), OTake (rd_cache r))
+      else (s, OCode 9)
     | None => (s, OCode 9)
     end
   | AMatch rel tl =>
@@ -611,17 +625,18 @@ Definition act (cf : cfg) (s : state) (a : action) : state * out :=
            unsent changes, a later one may find a HEARTBEAT due *)
         (poke cf (mkSt (s_now s) (s_changes s) (s_last s) (s_inst s) (s_log s)
                        (Some (new_rproxy rel tl (s_changes s))) true (s_waits s)
-                       (Some (mkRd rel tl (Some new_wproxy) [] [] [])) (s_rdead s) (s_net s)), ONone)
-      else (set_rd s (Some (mkRd rel tl None [] [] [])), ONone)
+                       (Some (mkRd true rel tl (Some new_wproxy) [] [] [])) (s_rdead s) (s_net s)), ONone)
+      else (set_rd s (Some (mkRd true rel tl None [] [] [])), ONone)
     end
   | ADelReader =>
-    (* remove_discovered_reader: the DCPS list forgets the reader, the RTPS reader proxy stays *)
-    (mkSt (s_now s) (s_changes s) (s_last s) (s_inst s) (s_log s) (s_rp s) false (s_waits s) None (s_rdead s)
-          (s_net s), ONone)
+    (* remove_discovered_reader: the DCPS list forgets the reader and the RTPS reader proxy is deleted
+       (delete_matched_reader); the wait list of wait_for_acknowledgments is NOT re-evaluated *)
+    (mkSt (s_now s) (s_changes s) (s_last s) (s_inst s) (s_log s) None false (s_waits s) (kill_reader (s_rd s))
+          (s_rdead s) (s_net s), ONone)
   | ADelPart =>
-    (* the reader was deleted first, so remove_discovered_participant finds no matched subscription *)
-    (mkSt (s_now s) (s_changes s) (s_last s) (s_inst s) (s_log s) (s_rp s) false (s_waits s) None true
-          (s_net s), ONone)
+    (* the peer deletes its entities (as above), then its participant *)
+    (mkSt (s_now s) (s_changes s) (s_last s) (s_inst s) (s_log s) None false (s_waits s) (kill_reader (s_rd s))
+          true (s_net s), ONone)
   | AWfa =>
     if is_acked (s_rp s) (s_last s) then (set_waits s (s_waits s ++ [WReported]), OCode 0)
     else (set_waits s (s_waits s ++ [WPending]), OCode (-1))
@@ -630,17 +645,18 @@ Definition act (cf : cfg) (s : state) (a : action) : state * out :=
     match s_rd s with
     | None => (s, OCode 9)
     | Some r =>
-      if negb (rd_tl r) then (s, OCode 12)
+      if negb (rd_alive r) then (s, OCode 9)
+      else if negb (rd_tl r) then (s, OCode 12)
       else if hist_received (rd_wp r)
-      then (set_rd s (Some (mkRd (rd_rel r) (rd_tl r) (rd_wp r) (rd_cache r) (rd_pres r) (rd_hwaits r ++ [WReported]))), OCode 0)
-      else (set_rd s (Some (mkRd (rd_rel r) (rd_tl r) (rd_wp r) (rd_cache r) (rd_pres r) (rd_hwaits r ++ [WPending]))), OCode (-1))
+      then (set_rd s (Some (mkRd (rd_alive r) (rd_rel r) (rd_tl r) (rd_wp r) (rd_cache r) (rd_pres r) (rd_hwaits r ++ [WReported]))), OCode 0)
+      else (set_rd s (Some (mkRd (rd_alive r) (rd_rel r) (rd_tl r) (rd_wp r) (rd_cache r) (rd_pres r) (rd_hwaits r ++ [WPending]))), OCode (-1))
     end
   | AWfhPoll =>
     match s_rd s with
     | None => (s, OPoll [])
     | Some r =>
       let '(w, o) := poll (rd_hwaits r) in
-      (set_rd s (Some (mkRd (rd_rel r) (rd_tl r) (rd_wp r) (rd_cache r) (rd_pres r) w)), OPoll o)
+      (set_rd s (Some (mkRd (rd_alive r) (rd_rel r) (rd_tl r) (rd_wp r) (rd_cache r) (rd_pres r) w)), OPoll o)
     end
   | AQuery => (s, OQuery (s_net s))
   | ANow => (s, OCount (s_now s))
